@@ -183,6 +183,10 @@ def close_step(ck, prog, kind, expanded):
         else:
             ck.oblige('C12.close.refund.' + tag, p, refund != owed, 'closing returns exactly funded minus claimed')
         ck.oblige('C12.close.removed.' + tag, p, len(p.world.storage['flows'].entries) != 0, 'the flow is removed')
+        sends = [e for e in eff if e.kind == 'send']
+        ck.oblige('C12.close.no_empty_transfer.' + tag, p, z3.Or(*[zint(e.amount) == 0 for e in sends]) if sends else False,
+                  'a close never emits a transfer of zero tokens (the bank module and cw20 reject empty transfers, so the whole close would fail and a fully claimed flow could never be removed)',
+                  site='close_flow zero refund')
     ck.require(n >= 1, tag + ': no Ok path')
 
 
